@@ -217,6 +217,7 @@ struct Slot {                 // a node in a role
 	bool synced = true;       // followers: mirrors the authority's state key
 	int  lastSeq = 0;         // followers: last applied message
 	bool tainted = false;
+	bool stepped = false;     // the last client op made the library process a step
 };
 
 struct Message { int seq = 0; int kind = 0; /*0 delta 1 snapshot*/ int at = 0; int to = -1; std::vector<Tr> delta; std::vector<uint8_t> bytes; Obs src; Obs srcBefore; const Op* op = nullptr; int rounds = 0; bool hadSchedule = false; bool reliable = false; };
